@@ -2,6 +2,8 @@ import Driver.Proto
 import Gotree.Spec.C05
 import Gotree.Model.C05Cli
 import Gotree.Model.C05Orient
+import Gotree.Model.C05Index
+import Gotree.Model.C05History
 
 namespace Gotree.Driver.C05
 open Gotree Gotree.Driver Gotree.C05
@@ -122,6 +124,52 @@ def outgroupOkMsg (t : T) (rm strict : Bool) (S : List String) (u : T) : Option 
            (if cladeOK t S u then none else some "outgroup is not a root clade cut at half the branch")
          else if cladeWeak t S u then none else some "outgroup is not a root clade on two equal branches")
       else (if insideOK t S u then none else some "outgroup not inside one root clade")
+
+
+/-- `i.j.k` -/
+def parseDots (s : String) : Option (List Nat) :=
+  if s == "" then some [] else (s.splitOn ".").mapM (·.toNat?)
+
+/-- one step of a history (harness/c05/index.go) -/
+def parseStep (s : String) : Option Step :=
+  match s.splitOn ":" with
+  | ["reroot", p] => (parseDots p).map .reroot
+  | ["unroot"] => some .unroot
+  | ["outgroup", rm, st, names] =>
+    match parseBool rm, parseBool st, (names.splitOn "+").mapM unescape with
+    | some rm, some st, some S => some (.outgroup rm st S)
+    | _, _, _ => none
+  | ["midpoint"] => some .midpoint
+  | ["sort"] => some .sort
+  | ["rerootfirst"] => some .rerootFirst
+  | ["rotate", _seed, ds] => (parseDots ds).map .rotate
+  | _ => none
+
+def stepTag : Step → String
+  | .reroot _ => "reroot" | .unroot => "unroot" | .outgroup true _ _ => "outgroup-remove" | .outgroup false _ _ => "outgroup"
+  | .midpoint => "midpoint" | .sort => "sort" | .rerootFirst => "rerootfirst" | .rotate _ => "rotate"
+
+/-- bitset of a branch: `n` or `<length>:<b.b.b>` -/
+def parseBits (s : String) : Option (Option (Nat × List Nat)) :=
+  if s == "n" then some none else
+  match s.splitOn ":" with
+  | [l, b] => match l.toNat?, parseDots b with
+    | some l, some b => some (some (l, b))
+    | _, _ => none
+  | _ => none
+
+def sortNat (l : List Nat) : List Nat := l.mergeSort (fun a b => decide (a ≤ b))
+
+/-- the index observation for the tie: independent of the order of tips and branches (child order is not
+    part of `obs_C05`): the count, the number of every tip by name, the bitsets as a sorted list -/
+def canonIndex (names : List String) (nb : Int) (ids : List Int) (bits : List (Option (Nat × List Nat))) : String :=
+  toString nb ++ "|" ++ joinTerm "," (sortStrings ((List.zip names ids).map fun p => escape p.1 ++ "=" ++ toString p.2)) ++ "|" ++
+    joinTerm ";" (sortStrings (bits.map fun b => match b with | none => "n" | some (l, s) => toString l ++ ":" ++ toString (sortNat s)))
+
+/-- the index observation, set bits as sets -/
+def showIndex (nb : Int) (ids : List Int) (bits : List (Option (Nat × List Nat))) : String :=
+  toString nb ++ "|" ++ toString ids ++ "|" ++
+    joinTerm ";" (bits.map fun b => match b with | none => "n" | some (l, s) => toString l ++ ":" ++ toString (sortNat s))
 
 def handle (op : String) (f : List String) : Verdict :=
   match op, f with
@@ -303,6 +351,48 @@ def handle (op : String) (f : List String) : Verdict :=
       if (List.zip ms us).any (fun p => obs root p.1 != obs root p.2) then ⟨.tie, tags, "a written tree differs from the model's"⟩
       else ⟨.pass, tags, ""⟩
     | _, _, _, _, _, _, _, _ => bad "C05.cli fields"
+  | "index", [dump, stepss, dones, outcome, after, nbs, idss, bitss, stales] =>
+    match T.undump dump, (splitTerm ";" stepss).mapM parseStep, dones.toNat?, parseStrList stales with
+    | some t, some steps, some done, some stale =>
+      let tags := ["op-index", "steps-" ++ toString steps.length] ++ (steps.map fun s => "step-" ++ stepTag s).eraseDups ++
+        tagIf (C05.uniq t) "uniq" ++ tagIf t.rooted "rooted" ++ tagIf (!t.noSingle) "singles" ++ tagIf (t.kids.length == 1) "roottip" ++
+        tagIf (steps.all (·.keeps)) "history-keeps" ++ tagIf (historyOK steps t) "hyp-historyok"
+      if !(C05.uniq t) then ⟨.pass, "skip-dupnames" :: tags, ""⟩ else
+      let (mdone, mres) := runSteps steps t
+      if startsWith outcome "malformed" then ⟨.oracle, tags, "heap malformed after the history: " ++ outcome⟩ else
+      if startsWith outcome "panic" then
+        (match mres with
+         | .panic _ => if t.tipNames.length < 3 then ⟨.pass, "panic-small" :: tags, ""⟩ else ⟨.oracle, tags, outcome⟩
+         | _ => ⟨.oracle, tags, outcome⟩)
+      else if outcome == "err" then
+        -- refusals are judged by the single-operation cases; here the model only has to follow
+        (match mres with
+         | .err _ => if mdone == done then ⟨.pass, "refused" :: tags, ""⟩ else ⟨.tie, tags, "history refused at step " ++ toString done ++ ", model at step " ++ toString mdone⟩
+         | m => ⟨.tie, tags, "history refused at step " ++ toString done ++ ", model says " ++ m.cls⟩)
+      else
+      match T.undump after, nbs.toInt?, parseIntList idss, (splitTerm ";" bitss).mapM parseBits with
+      | some u, some nb, some ids, some bits =>
+        let tags := tags ++ tagIf (after != dump) "nontrivial" ++ tagIf (u.tipNames.length != t.tipNames.length) "tips-removed"
+        -- oracle: a history that removes nothing leaves the tree itself as it was (`history_preserves`)
+        let keepMsg : Option String :=
+          if steps.all (·.keeps) && t.tipNames.length ≥ 3 then (presMsg t u).map ("after the history: " ++ ·) else none
+        if let some m := keepMsg then ⟨.oracle, tags, m⟩ else
+        -- oracle, on the implementation's own tree and indexes
+        if !(indexOK u nb ids bits stale) then
+          ⟨.oracle, tags, "after the history the indexes are not those of the tree: NbTips/TipIndex/bitsets read " ++ showIndex nb ids bits ++
+            (if stale.isEmpty then "" else " stale names " ++ showStrList stale) ++ ", the tree requires " ++
+            (let ix := indexOf u; showIndex ix.nb (ix.ids.map Int.ofNat) (ix.bits.map some))⟩
+        else
+        match mres with
+        | .ok m =>
+          if obs true m != obs true u then ⟨.tie, tags, "model obs after the history " ++ obs true m⟩ else
+          let ix := indexOf m
+          if canonIndex m.tipNames ix.nb (ix.ids.map Int.ofNat) (ix.bits.map some) != canonIndex u.tipNames nb ids bits then
+            ⟨.tie, tags, "model index " ++ canonIndex m.tipNames ix.nb (ix.ids.map Int.ofNat) (ix.bits.map some)⟩
+          else ⟨.pass, tags ++ tagIf (m.dump == after) "exact" ++ tagIf (m.dump != after) "inexact", ""⟩
+        | m => ⟨.tie, tags, "history succeeds, model says " ++ m.cls⟩
+      | _, _, _, _ => bad "C05.index observation fields"
+    | _, _, _, _ => bad "C05.index fields"
   | _, _ => bad ("C05: unknown op " ++ op)
 
 end Gotree.Driver.C05
